@@ -253,7 +253,8 @@ def generalized_fma(mult_pairs, add_wires, signed=False, reducer=adders.wallace_
         for bit_loc, bit in enumerate(wire):
             bits[bit_loc].append(bit)
 
-    import math
-    result_bitwidth = (longest_wire_len
-                       + int(math.ceil(math.log(len(add_wires) + len(mult_pairs), 2))))
+    # the result must hold the largest value the sum of products can take
+    max_value = (sum((2 ** len(m[0]) - 1) * (2 ** len(m[1]) - 1) for m in mult_pairs)
+                 + sum(2 ** len(x) - 1 for x in add_wires))
+    result_bitwidth = max(max_value.bit_length(), 1)
     return reducer(bits, result_bitwidth, adder_func)
